@@ -46,6 +46,14 @@ theorem range_step_pos (a b s : Int) (hs : 0 < s) :
 theorem range_from (a b : Int) : range a b 1 = if a < b then a :: range (a + 1) b 1 else [] :=
   range_step_pos a b 1 (by omega)
 
+/-- `range(a, b)` has `b - a` items (none when `b ≤ a`) -/
+theorem length_range_one (a b : Int) : (range a b 1).length = (b - a).toNat := by
+  generalize hn : (b - a).toNat = n
+  induction n generalizing a with
+  | zero => rw [range_from, if_neg (by omega)]; rfl
+  | succ n ih =>
+    rw [range_from, if_pos (by omega), List.length_cons, ih (a + 1) (by omega)]
+
 theorem len_nil {α : Type} : len ([] : List α) = 0 := rfl
 theorem len_cons {α : Type} (x : α) (l : List α) : len (x :: l) = len l + 1 := by
   simp [len]
